@@ -41,6 +41,7 @@ Ids(evs) == {evs[k].id : k \in DOMAIN evs}
 MaxOf(S) == CHOOSE x \in S : \A y \in S : y <= x
 TitleIds(T) == {T.events[k].id : k \in {x \in DOMAIN T.events : T.events[x].kind = "title"}}
 LastTitle(T) == IF TitleIds(T) = {} THEN 0 ELSE MaxOf(TitleIds(T))
+KindOfId(T, id) == LET S == {k \in DOMAIN T.events : T.events[k].id = id} IN IF S = {} THEN "none" ELSE T.events[CHOOSE k \in S : TRUE].kind
 CurTitle(L, T) == LET rec == TitleIds(T) \cap L.ids IN IF rec = {} THEN L.title0 ELSE MaxOf(rec)
 
 (* ---- the tracker changes; `stamp` is the tracker time of the change (now, or just before the next round) ---- *)
